@@ -25,9 +25,8 @@ pub fn post_try_new(lower: f64, upper: f64, ok: Option<&Tolerance>) -> bool {
 }
 /// `symmetrical` is specified away from inf -/+ inf (an infinite centre with an infinite half width gives a NaN bound)
 pub fn pre_symmetrical(center: f64, half_width: f64) -> bool { !(center.is_infinite() && half_width.is_infinite()) }
-fn habs(h: f64) -> f64 { if h < 0.0 { -h } else { h } } // |h| without abs(): -0.0 stays -0.0, compares equal to 0.0
 pub fn post_symmetrical(center: f64, half_width: f64, r: &Tolerance) -> bool {
-    let h = habs(half_width);
+    let h = half_width.abs();
     // the two bounds are the correctly rounded centre -/+ |half width| (NaN in, NaN out)
     (r.lower == center - h || (r.lower.is_nan() && (center - h).is_nan()))
         && (r.upper == center + h || (r.upper.is_nan() && (center + h).is_nan()))
